@@ -70,6 +70,11 @@ def gen_enum(rng, idx, n_enabled, placement, generics, kinds, robust=False):
         elif dis and rng.random() < 0.5:
             pool = ["NoDefault"]  # a disabled variant may hold a type without Default
         tys = [rng.choice(pool) for _ in range(nf)]
+        if not dis:
+            # (own PRNG stream) a field type that has an inherent `default()` next to its Default impl
+            import random as _r
+            ir = _r.Random("c05-inh-%s-%d" % (name, vi))
+            tys = ["Inh" if (ir.random() < 0.12 and t not in ("T", "U", "NoDefault", "Arr<K>")) else t for t in tys]
         extra = ""
         if not dis and not noise.MINIMAL[0] and kind == "tuple" and nf == 1 and tys[0] in ("u8", "String", "Seven") and rng.random() < 0.3:
             # default_with belongs to EnumString: the iterator still yields Default::default() payloads
@@ -277,7 +282,7 @@ def generate(rng, seed, size):
     out = []
     out.append("// @generated by /verif/gen/gen_corpus.py --seed %d (engine c05, size %s). Do not edit.\n" % (seed, size))
     out.append("use strum::EnumIter;\n")
-    out.append("use strum_sim::c05::{mk, Arr, Case, IterHandle, NoDefault, NotSendSync, Seven, P};\n\n")
+    out.append("use strum_sim::c05::{mk, Arr, Case, Inh, IterHandle, NoDefault, NotSendSync, Seven, P};\n\n")
     out.append("fn dw_u8() -> u8 { 99 }\nfn dw_string() -> String { String::from(\"not the default\") }\nfn dw_seven() -> Seven { Seven(-1) }\n\n")
     cases = []
     probes = []
